@@ -2,10 +2,15 @@
 C08 — Method calls and objects bind arguments, receivers and results correctly.
 -/
 import ZnVerif.Model.Interp
+import ZnVerif.Proofs.Handlers
+import ZnVerif.Proofs.OutGrows
+import ZnVerif.Proofs.Toy
 set_option linter.unusedSectionVars false
+set_option linter.unusedSimpArgs false
+set_option linter.unusedVariables false
 
 namespace ZnVerif.Properties.C08
-open ZnVerif.Model
+open ZnVerif.Model ZnVerif.Proofs.Calls ZnVerif.Proofs.Balance
 
 variable {ν : Type} [NumOps ν]
 
@@ -45,5 +50,465 @@ theorem property_write_local (a : Addr) (s : VM ν) (c : Addr) (props : List (St
     simpa using this
   simp [setProperty, bind, getCell, hc, setCell, ha]
   simp [hget, hl, setCell, ha]
+
+/-! ## arity -/
+
+/-- a call with the wrong number of arguments is error 51 and runs nothing of the body — the statement holds for
+EVERY `body` and handler list, so no statement of it can have had an effect: output, heap, call stack and current
+module are untouched, and every scope is what it was (the 此 binding made before the check is forgotten again). -/
+theorem arity_mismatch_runs_nothing (n : Nat) (inputs : List Ident) (body : Option (List Stmt))
+    (catches : List (Option Ident × Option (List Stmt))) (params : List Addr) (s : VM ν)
+    (h : params.length ≠ inputs.length) :
+    let r := evalExecBlock (n+1) (some (.mk inputs body catches)) params s
+    r.1 = .err (.rt 51) ∧ r.2.out = s.out ∧ r.2.heap = s.heap ∧ r.2.stack = s.stack ∧
+    r.2.csModuleID = s.csModuleID ∧
+    ((∀ sc, getScope s.csModuleID s = some sc → SortedDepths sc) → ∀ m, getScope m r.2 = getScope m s) := by
+  intro r
+  have hr : r = ((execBlockBody n inputs body catches params (enterScope s)).1,
+      exitScope s (execBlockBody n inputs body catches params (enterScope s)).2) := by
+    show evalExecBlock _ _ _ s = _
+    rw [evalExecBlock_eq, withScope_run]
+  have hbody : execBlockBody n inputs body catches params (enterScope s) =
+      (.err (.rt 51), (bindThis (enterScope s) (enterScope s)).2) := by
+    unfold execBlockBody
+    rcases bindThis_cases (enterScope s) with h1 | ⟨_, _, _, _, _, h1⟩ <;>
+      · rw [bind_ok h1, h1]; simp only [h, ne_eq, not_false_eq_true, if_true]; rfl
+  rw [hbody] at hr
+  obtain ⟨e1, e2, e3, e4, _, _⟩ := enterScope_frame s
+  obtain ⟨x1, x2, x3, x4⟩ := exitScope_frame s (bindThis (enterScope s) (enterScope s)).2
+  have hfr : (bindThis (enterScope s) (enterScope s)).2.stack = s.stack ∧
+      (bindThis (enterScope s) (enterScope s)).2.csModuleID = s.csModuleID ∧
+      (bindThis (enterScope s) (enterScope s)).2.heap = s.heap ∧
+      (bindThis (enterScope s) (enterScope s)).2.out = s.out := by
+    rcases bindThis_cases (enterScope s) with h1 | ⟨_, _, _, _, _, h1⟩ <;> rw [h1] <;> simp [e1, e2, e3, e4]
+  refine ⟨by rw [hr], by rw [hr]; simp only; rw [x4, hfr.2.2.2], by rw [hr]; simp only; rw [x3, hfr.2.2.1],
+    by rw [hr]; simp only; rw [x1, hfr.1], by rw [hr]; simp only; rw [x2, hfr.2.1], ?_⟩
+  intro hsorted m
+  rw [hr]
+  simp only
+  cases hsc : getScope s.csModuleID s with
+  | none =>
+    have hent : enterScope s = s := by unfold enterScope; rw [hsc]
+    have hexit : ∀ t, exitScope s t = t := by intro t; unfold exitScope; rw [hsc]
+    rw [hexit, hent]
+    rcases bindThis_cases s with h1 | ⟨sc, _, _, h0, _, _⟩
+    · rw [h1]
+    · rw [hsc] at h0; cases h0
+  | some sc =>
+    have hs := hsorted sc hsc
+    have hent : enterScope s = putScope s.csModuleID sc.beginScope s := by unfold enterScope; rw [hsc]
+    have hexit : ∀ t, exitScope s t = endScopeOf s.csModuleID t := by intro t; unfold exitScope; rw [hsc]
+    rw [hexit, hent]
+    have hcs : (putScope s.csModuleID sc.beginScope s).csModuleID = s.csModuleID := putScope_cs _ _ _
+    rcases bindThis_cases (putScope s.csModuleID sc.beginScope s) with h1 | ⟨sc0, sc', v, h0, hd, h1⟩
+    · rw [h1]
+      by_cases hm : m = s.csModuleID
+      · subst hm
+        rw [getScope_endScopeOf_same, getScope_putScope_same, hsc]
+        have := endScope_forgets_declared sc hs [] (by intro op ho; cases ho)
+        simp only [applyOps] at this
+        simp [this]
+      · rw [getScope_endScopeOf_other _ _ _ hm, getScope_putScope_other _ _ _ _ hm]
+    · rw [h1, hcs]
+      rw [hcs, getScope_putScope_same] at h0
+      cases h0
+      by_cases hm : m = s.csModuleID
+      · subst hm
+        rw [getScope_endScopeOf_same, getScope_putScope_same, hsc]
+        have := endScope_forgets_declared sc hs [.declare "此" v true none] (by
+          intro op ho; simp at ho; subst ho; rfl)
+        simp only [applyOps, ScopeOp.apply, hd] at this
+        simp [this]
+      · rw [getScope_endScopeOf_other _ _ _ hm, getScope_putScope_other _ _ _ _ hm,
+          getScope_putScope_other _ _ _ _ hm]
+
+/-! ## arguments: once, left to right -/
+
+/-- `得到 名`: the result is also declared under the name, as a constant -/
+def bindYield (yld : Option Ident) (res : Addr) : M ν Addr :=
+  match yld with
+  | none => pure res
+  | some y => do
+    let yn ← matchIDName y.lit
+    declareElement yn res true
+    pure res
+
+/-- a direct call = evaluate the argument list, run the callee on the values, bind 得到 -/
+theorem call_eq (n ln : Nat) (f : Ident) (params : List Expr) (yld : Option Ident) (hf : IsName f.lit) :
+    evalExpr (ν := ν) (n+1) (.call ln (some f) params yld) = (do
+      let vals ← params.mapM (evalExpr n)
+      let res ← execDirectFunction n f.lit vals
+      bindYield yld res) := by
+  simp only [evalExpr]
+  funext s
+  rw [bind_ok (matchIDNameOpt_name f hf s)]
+  cases yld <;> rfl
+
+/-- the argument list is evaluated head first: `mapM` on a non-empty list runs the head, then the tail from the
+state the head left, and returns the values in the same order -/
+theorem args_mapM_cons (n : Nat) (e : Expr) (es : List Expr) :
+    (e :: es).mapM (evalExpr (ν := ν) n) = (do
+      let v ← evalExpr n e
+      let vs ← es.mapM (evalExpr n)
+      pure (v :: vs)) := mapM_cons _ _ _
+
+/-- arguments are evaluated exactly once each, left to right (`RunsInOrder` threads the state through the list in
+order); after them the callee runs on their values from the state the last argument left -/
+theorem args_left_to_right_once (n ln : Nat) (f : Ident) (params : List Expr) (yld : Option Ident)
+    (hf : IsName f.lit) (s s1 : VM ν) (vals : List Addr)
+    (hargs : RunsInOrder (evalExpr n) params s vals s1) :
+    evalExpr (n+1) (.call ln (some f) params yld) s = (execDirectFunction n f.lit vals >>= bindYield yld) s1 := by
+  rw [call_eq n ln f params yld hf, bind_ok ((mapM_ok_iff _ _ _ _ _).mpr hargs)]
+
+/-- `mapM` succeeds exactly when the elements run in order — there is no other way to get a value list -/
+theorem args_values_iff (n : Nat) (params : List Expr) (s s1 : VM ν) (vals : List Addr) :
+    params.mapM (evalExpr n) s = (.ok vals, s1) ↔ RunsInOrder (evalExpr n) params s vals s1 :=
+  mapM_ok_iff _ _ _ _ _
+
+/-- if an argument fails, the ones before it have run (once, in order), the ones after it and the callee never run -/
+theorem failing_argument_stops_call (n ln : Nat) (f : Ident) (pre post : List Expr) (a : Expr)
+    (yld : Option Ident) (hf : IsName f.lit) (s s1 s2 : VM ν) (vals : List Addr) (e : Err)
+    (hpre : RunsInOrder (evalExpr n) pre s vals s1) (ha : evalExpr n a s1 = (.err e, s2)) :
+    evalExpr (n+1) (.call ln (some f) (pre ++ a :: post) yld) s = (.err e, s2) := by
+  rw [call_eq n ln f _ yld hf, bind_err (mapM_err _ post a e pre s vals s1 s2 hpre ha)]
+
+/-! ## result and 得到 -/
+
+/-- after a statement has set the frame's return slot the block stops: its value is that slot, later statements do not run -/
+theorem stmts_stop_at_return (evalOne : Stmt → M ν Addr) (last : Option Addr) (st : Stmt) (rest : List Stmt)
+    (s s1 : VM ν) (x rv : Addr) (fr : Frame) (frs : List Frame) (hnd : isDecl st = false)
+    (h1 : evalOne st s = (.ok x, s1)) (hst : s1.stack = fr :: frs) (hret : fr.ret = some rv) :
+    stmtsLoop evalOne last (st :: rest) s = (.ok (some rv), s1) := by
+  unfold stmtsLoop
+  simp only [hnd, Bool.false_eq_true, if_false]
+  rw [bind_ok h1]
+  simp only [pure_bind]
+  rw [bind_ok (getReturnValue_cons s1 fr frs hst), hret]
+  rfl
+
+/-- 输出 e: evaluates `e` and stores the value in the return slot of the frame on top -/
+theorem ret_sets_slot (n ln : Nat) (e : Expr) (s s1 : VM ν) (fr fr1 : Frame) (rest rest1 : List Frame) (v : Addr)
+    (hs : s.stack = fr :: rest)
+    (he : evalExpr n e { s with stack := { fr with line := ln } :: rest } = (.ok v, s1))
+    (hs1 : s1.stack = fr1 :: rest1) :
+    evalStmt (n+1) (.ret ln e) s = (.ok v, { s1 with stack := { fr1 with ret := some v } :: rest1 }) := by
+  simp only [evalStmt, Stmt.line]
+  simp [bind, setTopFrame, modifyVM, hs, he, hs1, pure]
+
+/-- the value of a body whose statements ended with return slot `v` is `v` -/
+theorem block_value_is_return (n : Nat) (inputs : List Ident) (body : Option (List Stmt))
+    (catches : List (Option Ident × Option (List Stmt))) (params : List Addr) (t t1 t2 : VM ν) (v : Addr)
+    (hlen : params.length = inputs.length)
+    (hpro : (do bindThis t; bindInputs inputs params : M ν Unit) t = (.ok (), t1))
+    (hbody : evalStmtBlock n body t1 = (.ok (some v), t2)) :
+    execBlockBody n inputs body catches params t = (.ok v, t2) := by
+  unfold execBlockBody
+  have hne : ¬ params.length ≠ inputs.length := by simp [hlen]
+  rw [M_bind_def] at hpro ⊢
+  rcases hb : bindThis t t with ⟨r, s'⟩
+  rw [hb] at hpro
+  cases r <;> simp only at hpro ⊢ <;> try (cases hpro)
+  simp only [hne, if_false]
+  rw [bind_ok hpro]
+  unfold Model.tryCatch
+  rw [hbody]
+  rfl
+
+/-- a direct call yields the callee's value and pops the callee's frame: the stack is the caller's again, and with it
+the current module -/
+theorem call_result_is_return (n : Nat) (fname : String) (params : List Addr) (s s2 : VM ν) (fv : Addr) (mid : Int)
+    (f : FnRef) (v : Addr) (fr' : Frame)
+    (hfind : findElementWithModule fname s = (.ok (fv, mid), s)) (hcell : s.heap[fv]? = some (.fn f))
+    (hrun : execFunction n f none params (pushFrame { moduleId := mid, callType := 2 } s).2 = (.ok v, s2))
+    (hbal : s2.stack = fr' :: s.stack) :
+    execDirectFunction (n+1) fname params s =
+      (.ok v, { s2 with stack := s.stack, csModuleID := topModule s.stack }) := by
+  simp only [execDirectFunction]
+  rw [bind_ok hfind]
+  simp only
+  have hp : pushFrame { moduleId := mid, callType := 2 } s =
+      (.ok (), (pushFrame { moduleId := mid, callType := 2 } s).2) := by unfold pushFrame modifyVM; rfl
+  rw [bind_ok hp]
+  have hheap := (pushFrame_run (ν := ν) { moduleId := mid, callType := 2 } s).2.2.2.1
+  have hg : getCell fv (pushFrame { moduleId := mid, callType := 2 } s).2 =
+      (.ok (.fn f), (pushFrame { moduleId := mid, callType := 2 } s).2) := by
+    unfold getCell; rw [hheap, hcell]
+  rw [bind_ok hg]
+  simp only
+  rw [bind_ok hrun, bind_ok (popFrame_cons s2 fr' s.stack hbal)]
+  rfl
+
+/-- 得到 binds a constant: assigning to the name afterwards is error 44 and changes nothing -/
+theorem yield_binds_const (y : Ident) (res w : Addr) (s s' : VM ν) (r : Addr) (hy : IsName y.lit)
+    (h : bindYield (some y) res s = (.ok r, s')) :
+    r = res ∧ setElement y.lit w s' = (.err (.rt 44), s') := by
+  unfold bindYield at h
+  simp only at h
+  rw [bind_ok (matchIDName_name y.lit hy s), M_bind_def] at h
+  rcases hd : declareElement y.lit res true none s with ⟨r0, s0⟩
+  rw [hd] at h
+  cases r0 <;> simp only at h <;> try (cases h)
+  exact ⟨rfl, set_after_const_declare y.lit res w none s s' hd⟩
+
+/-! ## chains -/
+
+/-- one link of `以 x （m1：…）、（m2：…）`: evaluate the link's arguments, call the method on the current receiver -/
+def chainStep (n : Nat) (cur : Addr) (c : Expr) : M ν Addr :=
+  match c with
+  | .call _ mname params _ => do
+    let fname ← matchIDNameOpt mname
+    let vals ← params.mapM (evalExpr n)
+    execMethodFunction n cur fname vals
+  | _ => goPanic
+
+theorem mcall_eq (n ln : Nat) (root : Expr) (chain : List Expr) (yld : Option Ident) :
+    evalExpr (ν := ν) (n+1) (.mcall ln root chain yld) = (do
+      let rv ← evalExpr n root
+      let last ← chain.foldlM (chainStep n) rv
+      bindYield yld last) := by
+  simp only [evalExpr]
+  cases yld <;> rfl
+
+/-- each link's result is the receiver of the next link -/
+theorem chain_feeds_result (n : Nat) (cur r : Addr) (c : Expr) (cs : List Expr) (s s1 : VM ν)
+    (h : chainStep n cur c s = (.ok r, s1)) :
+    (c :: cs).foldlM (chainStep n) cur s = cs.foldlM (chainStep n) r s1 := by
+  rw [List.foldlM_cons, bind_ok h]
+
+/-- a link evaluates its arguments (once, in order) and calls the method on the receiver it was handed -/
+theorem chain_step_calls_receiver (n l : Nat) (cur : Addr) (m : Ident) (params : List Expr) (y : Option Ident)
+    (hm : IsName m.lit) (s s1 : VM ν) (vals : List Addr) (hargs : RunsInOrder (evalExpr n) params s vals s1) :
+    chainStep n cur (.call l (some m) params y) s = execMethodFunction n cur m.lit vals s1 := by
+  unfold chainStep
+  simp only
+  rw [bind_ok (matchIDNameOpt_name m hm s), bind_ok ((mapM_ok_iff _ _ _ _ _).mpr hargs)]
+
+/-! ## 新建 -/
+
+/-- `新建 C：args` with a user constructor: every default is duplicated for the new instance (`hprops`), the instance is
+a fresh object cell, and the constructor body runs with the call's arguments in a frame whose receiver (其) is the
+new instance; the instance is the result -/
+theorem constructor_gets_args_and_this (n : Nat) (cv : Addr) (params : List Addr) (s s1 : VM ν) (nm : String)
+    (mid : Int) (exec : Option ExecBlock) (props props' : List (String × Addr)) (ms : List (String × Addr))
+    (hcell : s.heap[cv]? = some (.cls nm (.user mid exec) props ms))
+    (hprops : props.mapM (fun p => (do let v ← dup n p.2; pure (p.1, v) : M ν (String × Addr))) s =
+      (.ok props', s1)) :
+    let inst := s1.heap.size
+    let s2 := (pushFrame { moduleId := mid, callType := 2, this := some inst }
+      { s1 with heap := s1.heap.push (.obj cv props') }).2
+    construct (n+1) cv params s = (do let _ ← evalExecBlock n exec params; popFrame; pure inst) s2 ∧
+    s2.stack = { moduleId := mid, callType := 2, this := some inst } :: s1.stack ∧
+    getThis s2 = (.ok (some inst), s2) ∧ s2.heap[inst]? = some (.obj cv props') := by
+  intro inst s2
+  have hp := pushFrame_run (ν := ν) { moduleId := mid, callType := 2, this := some inst }
+    { s1 with heap := s1.heap.push (.obj cv props') }
+  refine ⟨?_, hp.2.1, getThis_cons _ _ _ hp.2.1, ?_⟩
+  · simp only [construct]
+    have hg : getCell cv s = (.ok (.cls nm (.user mid exec) props ms), s) := by unfold getCell; rw [hcell]
+    rw [bind_ok hg]
+    simp only
+    rw [bind_ok hprops]
+    have ha : alloc (.obj cv props') s1 = (.ok inst, { s1 with heap := s1.heap.push (.obj cv props') }) := rfl
+    rw [bind_ok ha]
+    have hpf : pushFrame { moduleId := mid, callType := 2, this := some inst }
+        { s1 with heap := s1.heap.push (.obj cv props') } = (.ok (), s2) := by unfold pushFrame modifyVM; rfl
+    rw [bind_ok hpf]
+  · show s2.heap[s1.heap.size]? = _
+    rw [hp.2.2.2.1]
+    simp
+
+/-! ## unknown methods -/
+
+/-- the method names each kind of built-in value answers to (value/*.go) -/
+def builtinMethodNames : Cell ν → List String
+  | .arr _ => ["新增", "添加", "前增", "后增", "左移", "右移", "拼接", "合并", "包含", "寻找", "交换"]
+  | .hm _ _ => ["读取", "写入", "移除"]
+  | .num _ => ["加", "减", "乘", "除", "自增", "自减", "向下取整", "向上取整"]
+  | .str _ => ["拼接", "匹配", "匹配开头", "匹配结尾", "替换", "分隔", "取样", "去除空格", "转小写-英文", "转大写-英文",
+               "格式化", "转换数值"]
+  | _ => []
+
+/-- an object whose class has no method of that name: error 46 -/
+theorem unknown_method_is_error (n : Nat) (root : Addr) (fname : String) (params : List Addr) (s : VM ν)
+    (c : Addr) (props : List (String × Addr)) (cname : String) (ctor : Ctor) (ps methods : List (String × Addr))
+    (x : Addr) (mid : Int)
+    (hroot : s.heap[root]? = some (.obj c props)) (hcls : s.heap[c]? = some (.cls cname ctor ps methods))
+    (hfind : findElementWithModule cname s = (.ok (x, mid), s)) (hl : lookup fname methods = none) :
+    (execMethodFunction (n+1) root fname params s).1 = .err (.rt 46) := by
+  simp only [execMethodFunction]
+  have hg : getCell root s = (.ok (.obj c props), s) := by unfold getCell; rw [hroot]
+  have hg2 : getCell c s = (.ok (.cls cname ctor ps methods), s) := by unfold getCell; rw [hcls]
+  rw [bind_ok hg]; simp only
+  rw [bind_ok hg2]; simp only
+  rw [bind_ok hfind]; simp only
+  have hp : pushFrame { moduleId := mid, callType := 2, this := some root } s =
+      (.ok (), (pushFrame { moduleId := mid, callType := 2, this := some root } s).2) := by
+    unfold pushFrame modifyVM; rfl
+  rw [bind_ok hp, hl]
+  rfl
+
+/-- a built-in value (number, text, list, dictionary, 空, …) asked for a method it does not have: error 46, nothing changes -/
+theorem unknown_builtin_method_is_error (n : Nat) (a : Addr) (name : String) (vals : List Addr) (s : VM ν)
+    (cell : Cell ν) (hcell : s.heap[a]? = some cell) (hno : name ∉ builtinMethodNames cell) :
+    builtinMethod n a name vals s = (.err (.rt 46), s) := by
+  unfold builtinMethod
+  have hg : getCell a s = (.ok cell, s) := by unfold getCell; rw [hcell]
+  rw [bind_ok hg]
+  cases cell <;> simp only [builtinMethodNames, List.mem_cons, List.not_mem_nil, or_false, not_or] at hno <;>
+    simp only <;> first
+      | rfl
+      | (split <;> first | rfl | (exfalso; simp_all))
+
+/-- …and through a method call expression the call fails with that error -/
+theorem unknown_builtin_method_call_is_error (n : Nat) (a : Addr) (name : String) (vals : List Addr) (s : VM ν)
+    (cell : Cell ν) (hcell : s.heap[a]? = some cell) (hobj : ∀ c props, cell ≠ .obj c props)
+    (hno : name ∉ builtinMethodNames cell) :
+    (execMethodFunction (n+1) a name vals s).1 = .err (.rt 46) := by
+  simp only [execMethodFunction]
+  have hg : getCell a s = (.ok cell, s) := by unfold getCell; rw [hcell]
+  rw [bind_ok hg]
+  have hp : pushFrame { moduleId := -1, callType := 2, this := some a } s =
+      (.ok (), (pushFrame { moduleId := -1, callType := 2, this := some a } s).2) := by
+    unfold pushFrame modifyVM; rfl
+  have hheap := (pushFrame_run (ν := ν) { moduleId := -1, callType := 2, this := some a } s).2.2.2.1
+  have hb := unknown_builtin_method_is_error n a name vals
+    (pushFrame { moduleId := -1, callType := 2, this := some a } s).2 cell (by rw [hheap]; exact hcell) hno
+  cases cell <;> first
+    | exact absurd rfl (hobj _ _)
+    | (simp only; rw [bind_ok hp, bind_err hb])
+
+/-! ## traces -/
+
+/-- nothing the evaluator does removes or reorders displayed lines: the output after any expression, statement or
+call is the output before with new lines added (on every outcome) -/
+theorem output_only_grows (n : Nat) :
+    (∀ e (s : VM ν), ∃ l, (evalExpr n e s).2.out = l ++ s.out) ∧
+    (∀ st (s : VM ν), ∃ l, (evalStmt n st s).2.out = l ++ s.out) ∧
+    (∀ f ps (s : VM ν), ∃ l, (execDirectFunction n f ps s).2.out = l ++ s.out) ∧
+    (∀ r f ps (s : VM ν), ∃ l, (execMethodFunction n r f ps s).2.out = l ++ s.out) := by
+  have h := allPres (ν := ν) (R := OutGrows) n
+  exact ⟨fun e s => (h.evalExpr e).run s, fun st s => (h.evalStmt st).run s,
+    fun f ps s => (h.execDirectFunction f ps).run s, fun r f ps s => (h.execMethodFunction r f ps).run s⟩
+
+/-- the trace of a call = the traces of its arguments, in order, then the trace of the callee (`out` is
+most-recent-first, so "then" is "in front of"): `ts` are the per-argument traces witnessed by `RunsInOrderT` -/
+theorem call_trace_is_args_then_body (n ln : Nat) (f : Ident) (params : List Expr) (yld : Option Ident)
+    (hf : IsName f.lit) (s s1 : VM ν) (vals : List Addr)
+    (hargs : RunsInOrder (evalExpr n) params s vals s1) :
+    ∃ ts tbody, RunsInOrderT (evalExpr n) params s vals s1 ts ∧ ts.length = params.length ∧
+      ((execDirectFunction n f.lit vals >>= bindYield yld) s1).2.out = tbody ++ s1.out ∧
+      (evalExpr (n+1) (.call ln (some f) params yld) s).2.out = tbody ++ ts.reverse.flatten ++ s.out := by
+  have h := allPres (ν := ν) (R := OutGrows) n
+  obtain ⟨ts, hts⟩ := RunsInOrder.withTraces (fun a s => (h.evalExpr a).run s) hargs
+  have hy : ∀ res, Pres OutGrows (bindYield (ν := ν) yld res) := by
+    intro res; unfold bindYield; pres_tac
+  obtain ⟨tbody, hb⟩ := (Pres.bind (h.execDirectFunction f.lit vals) hy).run s1
+  refine ⟨ts, tbody, hts, hts.out.2, hb, ?_⟩
+  rw [args_left_to_right_once n ln f params yld hf s s1 vals hargs, hb, hts.out.1, List.append_assoc]
+
+/-! ## non-vacuity: each implication above, instantiated on a tiny program over the toy numbers -/
+
+section examples
+open ZnVerif.Proofs.Toy
+
+/-- a body that is not even there (`none` would be a Go nil dereference if it were touched), one argument for no input -/
+example : (evalExecBlock 1 (some (.mk [] none [])) [5] s0).1 = .err (.rt 51) ∧
+    getScope 0 (evalExecBlock 1 (some (.mk [] none [])) [5] s0).2 = getScope 0 s0 :=
+  let h := arity_mismatch_runs_nothing 0 [] none [] [5] s0 (by decide)
+  ⟨h.1, h.2.2.2.2.2 (by intro sc hsc; cases hsc; exact sortedDepths_empty) 0⟩
+
+/-- `f：“a”、“b”`: the two texts are allocated in order (addresses 2, 3), then `f` runs on [2, 3] -/
+example : ∃ s2, evalExpr 2 (.call 0 (some ⟨0, "f"⟩) [.str 0 "a", .str 0 "b"] none) s0 =
+    (execDirectFunction 1 "f" [2, 3] >>= bindYield none) s2 :=
+  ⟨_, args_left_to_right_once 1 0 ⟨0, "f"⟩ [.str 0 "a", .str 0 "b"] none (by decide) s0 _ [2, 3]
+    (.cons rfl (.cons rfl (.nil _)))⟩
+
+/-- `f：“a”、‹nil›、“b”`: the second argument fails with code 80; “b” and `f` never run -/
+example : ∃ s2, evalExpr 2 (.call 0 (some ⟨0, "f"⟩) ([.str 0 "a"] ++ .nil :: [.str 0 "b"]) none) s0 =
+    (.err (.rt 80), s2) :=
+  ⟨_, failing_argument_stops_call 1 0 ⟨0, "f"⟩ [.str 0 "a"] [.str 0 "b"] .nil none (by decide) s0 _ _ [2] (.rt 80)
+    (.cons rfl (.nil _)) rfl⟩
+
+/-- `输出 “x”` followed by a statement that would panic: the block stops with the text's address -/
+example : ∃ s1, stmtsLoop (evalStmt 2) none [.ret 0 (.str 0 "x"), .nil] s0 = (.ok (some 2), s1) :=
+  ⟨_, stmts_stop_at_return (evalStmt 2) none (.ret 0 (.str 0 "x")) [.nil] s0 _ 2 2 _ _ rfl rfl rfl rfl⟩
+
+example : (evalStmt 2 (.ret 0 (.str 0 "x")) s0).1 = .ok 2 := by
+  rw [ret_sets_slot 1 0 (.str 0 "x") s0 _ _ _ _ _ 2 rfl rfl rfl]
+
+example : ∃ t2, execBlockBody 4 [] (some [.ret 0 (.str 0 "x")]) [] [] s0 = (.ok 2, t2) :=
+  ⟨_, block_value_is_return 4 [] (some [.ret 0 (.str 0 "x")]) [] [] s0 s0 _ 2 rfl rfl rfl⟩
+
+/-- calling `f` (输出 “x”): the value is the text, the stack afterwards is the caller's -/
+example : (execDirectFunction 7 "f" [] sF).1 = .ok 1 ∧ (execDirectFunction 7 "f" [] sF).2.stack = sF.stack := by
+  rw [call_result_is_return 6 "f" [] sF _ 0 0 _ 1 _ rfl rfl rfl rfl]
+  exact ⟨rfl, rfl⟩
+
+/-- `… 得到 r` then `r = …`: error 44 -/
+example : ∃ s' : VM Int, setElement "r" 1 s' = (.err (.rt 44), s') :=
+  ⟨_, (yield_binds_const ⟨0, "r"⟩ 0 1 s0 _ 0 (by decide) rfl).2⟩
+
+/-- `以 5（向下取整）（…rest…）`: the result cell (address 1) is the receiver of the rest of the chain -/
+example (cs : List Expr) : ∃ s1, (.call 0 (some ⟨0, "向下取整"⟩) [] none :: cs).foldlM (chainStep 2) 0 sN =
+    cs.foldlM (chainStep 2) 1 s1 :=
+  ⟨_, chain_feeds_result 2 0 1 _ cs sN _ rfl⟩
+
+example : chainStep 2 0 (.call 0 (some ⟨0, "向下取整"⟩) [] none) sN = execMethodFunction 2 0 "向下取整" [] sN :=
+  chain_step_calls_receiver 2 0 0 ⟨0, "向下取整"⟩ [] none (by decide) sN sN [] (.nil _)
+
+/-- `新建 点：…`: the default 5 is copied to a fresh cell (address 2), the instance is address 3, and the constructor
+frame's receiver is 3 -/
+example : ∃ s2 : VM Int, getThis s2 = (.ok (some 3), s2) ∧ s2.heap[3]? = some (.obj 0 [("x", 2)]) ∧
+    construct 3 0 [7] sC = (do let _ ← evalExecBlock 2 (some (.mk [] (some []) [])) [7]; popFrame; pure 3) s2 :=
+  let h := constructor_gets_args_and_this 2 0 [7] sC _ "点" 0 (some (.mk [] (some []) [])) [("x", 1)] [("x", 2)] []
+    rfl rfl
+  ⟨_, h.2.2.1, h.2.2.2, h.1⟩
+
+example : (execMethodFunction 1 1 "走" [] sO).1 = .err (.rt 46) :=
+  unknown_method_is_error 0 1 "走" [] sO 0 [] "点" .default [] [] 0 0 rfl rfl rfl rfl
+
+/-- 空 has no methods at all; a number has no method 走 -/
+example : (execMethodFunction 1 1 "走" [] s0).1 = .err (.rt 46) :=
+  unknown_builtin_method_call_is_error 0 1 "走" [] s0 .null rfl (by intro c p h; cases h) (by simp [builtinMethodNames])
+
+example : builtinMethod 1 0 "走" [] sN = (.err (.rt 46), sN) :=
+  unknown_builtin_method_is_error 1 0 "走" [] sN (.num 5) rfl (by simp [builtinMethodNames])
+
+/-- `f：（显示：“a”）、（显示：“b”）`: the arguments display a, then b (their values are the 空 cells 2 and 4); whatever `f`
+displays comes after -/
+example : ∃ tbody s1, RunsInOrderT (evalExpr 4) [.call 0 (some ⟨0, "显示"⟩) [.str 0 "a"] none,
+      .call 0 (some ⟨0, "显示"⟩) [.str 0 "b"] none] sD [2, 4] s1 [["a"], ["b"]] ∧
+    (evalExpr 5 (.call 0 (some ⟨0, "f"⟩) [.call 0 (some ⟨0, "显示"⟩) [.str 0 "a"] none,
+      .call 0 (some ⟨0, "显示"⟩) [.str 0 "b"] none] none) sD).2.out = tbody ++ ["b", "a"] ++ sD.out := by
+  have hts : RunsInOrderT (evalExpr 4) [.call 0 (some ⟨0, "显示"⟩) [.str 0 "a"] none,
+      .call 0 (some ⟨0, "显示"⟩) [.str 0 "b"] none] sD [2, 4] _ [["a"], ["b"]] :=
+    .cons (s1 := (evalExpr 4 (.call 0 (some ⟨0, "显示"⟩) [.str 0 "a"] none) sD).2) rfl rfl
+      (.cons (s1 := (evalExpr 4 (.call 0 (some ⟨0, "显示"⟩) [.str 0 "b"] none)
+        (evalExpr 4 (.call 0 (some ⟨0, "显示"⟩) [.str 0 "a"] none) sD).2).2) rfl rfl (.nil _))
+  obtain ⟨ts, tbody, h1, _, _, h4⟩ := call_trace_is_args_then_body 4 0 ⟨0, "f"⟩
+    [.call 0 (some ⟨0, "显示"⟩) [.str 0 "a"] none, .call 0 (some ⟨0, "显示"⟩) [.str 0 "b"] none] none (by decide)
+    sD _ [2, 4] (.cons rfl (.cons rfl (.nil _)))
+  have hcat : ts.reverse.flatten = ["b", "a"] :=
+    List.append_cancel_right (h1.out.1.symm.trans hts.out.1)
+  exact ⟨tbody, _, hts, by rw [h4, hcat]⟩
+
+/-- inside a method frame whose receiver is the object at address 1, `其x` reads through address 1; at script level
+(no receiver) it is error 48 -/
+example : memberIV 1 (.member 0 2 .nil 1 (some ⟨0, "x"⟩) .nil)
+    { sO with stack := { moduleId := 0, callType := 2, this := some 1 } :: sO.stack } =
+    (.ok (3, 1, "x", 0), { sO with stack := { moduleId := 0, callType := 2, this := some 1 } :: sO.stack }) :=
+  this_is_receiver 0 0 ⟨0, "x"⟩ _ _ _ 1 rfl rfl
+
+example : memberIV 1 (.member 0 2 .nil 1 (some ⟨0, "x"⟩) .nil) sO = (.err (.rt 48), sO) :=
+  this_without_receiver_is_error 0 0 ⟨0, "x"⟩ sO _ _ rfl rfl
+
+example : getProperty 1 1 "y" sO = (.err (.rt 45), sO) :=
+  (unknown_property_is_error 1 1 sO 0 [] "y" rfl (by decide) rfl).1
+
+/-- an instance (address 3) with property x: writing x changes that cell only -/
+example : ∃ s' : VM Int, setProperty 3 "x" 0 sP = (.ok (), s') ∧ s'.heap[3]? = some (.obj 0 [("x", 0)]) :=
+  ⟨_, property_write_local 3 sP 0 [("x", 2)] "x" 0 2 rfl rfl, rfl⟩
+
+end examples
 
 end ZnVerif.Properties.C08
